@@ -152,7 +152,9 @@ def run(res, tier, seed):
                                                              common.zpack([0] * 60), common.zpack([x[0] for x in space10]), k), dict(special="3b without ICT")))
     # ---------- through the readers ----------
     for fmt, sc, start in [("gac_klm", "noaa19", datetime.datetime(2010, 3, 4, 5, 6, 7)), ("gac_pod", "noaa12", datetime.datetime(1993, 3, 4, 5, 6, 7)),
-                           ("lac_klm", "metopb", datetime.datetime(2014, 3, 4, 5, 6, 7))]:
+                           ("lac_klm", "metopb", datetime.datetime(2014, 3, 4, 5, 6, 7)),
+                           # spacecraft with the four-channel AVHRR/1: the fifth slot of the file is calibrated as it is, with its own telemetry
+                           ("gac_pod", "noaa10", datetime.datetime(1988, 3, 4, 5, 6, 7)), ("gac_pod", "tirosn", datetime.datetime(1980, 3, 4, 5, 6, 7))]:
         n = 70
         first = rng.choice([1, 3, 1000])
         lns = make_pass(rng, n, first=first)
